@@ -1,6 +1,6 @@
 /-
   Props/C14_Slices.lean — slicing with any step, slice assignment, slice deletion and reverse:
-  the code's loops over bit offsets (`range(start*L, stop*L, step*L)`, the `overwrite` loop, deletion from the end,
+  the code's loops over bit offsets (`range(start*w, stop*w, step*w)`, `w = dtype.bitlength`, the `overwrite` loop, deletion from the end,
   the swap loop) compute the Python-list operation on the items and never touch the trailing bits.
   Hypotheses as in Props/C14.lean.
 -/
